@@ -33,7 +33,11 @@ jmp_buf sdk_restart_jmp;
 int sdk_restart_armed = 0;
 int sdk_dead = 0;
 
-uint32 system_get_time(void) { return (uint32)(sdk_boot_cnt + sdk_now_us); }
+int sdk_read_cost_us = 0; /* execution time: every reading of the counter lets that many microseconds pass */
+uint32 system_get_time(void) {
+  sdk_now_us += sdk_read_cost_us;
+  return (uint32)(sdk_boot_cnt + sdk_now_us);
+}
 uint32 system_get_rtc_time(void) { return (uint32)(sdk_now_us / 6); }
 void ets_delay_us(uint32_t us) { sdk_now_us += us; }
 
